@@ -119,6 +119,25 @@ def pglOp (j : Json) : R Json := do
   needSq |Ad 2 2|
   return Json.mkObj [("A", ofMat (oToPgl rsqrt S)), ("pinned", ofMat (oToPglPinned rsqrt S)), ("Ad", ofMat Ad)]
 
+/-- the default form is the instance `W = Winv = perm210` of the general `A_d` -/
+theorem oToPglAd_eq_form {K : Type*} [Field K] (S : Matrix (Fin 3) (Fin 3) K) :
+    GT.Lie.oToPglAd S = GT.Lie.oToPglAdForm GT.Lie.perm210 GT.Lie.perm210 S := rfl
+
+/-- `o_to_pgl(S, bilinear_form=B)`: `W`, `Winv` are the pair `utils.diagonalize_form(B, "minkowski", reverse=True,
+with_inverse=True)` returns (contract outputs; `W * Winv = 1` is reported) -/
+def pglFormOp (j : Json) : R Json := do
+  let S ← matf 3 3 j "S"
+  let W ← matf 3 3 j "W"
+  let Winv ← matf 3 3 j "Winv"
+  let Ad := (DMat.ofMatrix (GT.Lie.oToPglAdForm W Winv S)).toMatrix
+  needSq |Ad 0 0|
+  needSq |Ad 0 2|
+  needSq |Ad 2 0|
+  needSq |Ad 2 2|
+  let P := (DMat.ofMatrix (W * Winv)).toMatrix
+  let inv := (List.finRange 3).all fun i => (List.finRange 3).all fun k => P i k == if i = k then 1 else 0
+  return Json.mkObj [("A", ofMat (GT.Lie.oToPglForm rsqrt W Winv S)), ("Ad", ofMat Ad), ("inverse", .bool inv)]
+
 /-- the array-level (`ND`) models of the vectorised code paths: `{"shape":[...], "data":[...]}` in and out -/
 def irrepNdOp (j : Json) : R Json := do
   let A ← GT.Driver.C04.ndf j "A"
@@ -146,5 +165,6 @@ def ops : List (String × Handler) :=
    ("c17.so21", so21Op),
    ("c17.so31", so31Op),
    ("c17.o_to_pgl", pglOp),
+   ("c17.o_to_pgl_form", pglFormOp),
    ("c17.irrep_nd", irrepNdOp), ("c17.so21_nd", so21NdOp), ("c17.gln_nd", glnNdOp)]
 end GT.Driver.C17
